@@ -258,7 +258,7 @@ Lemma rvole_ot_reply_tamper_partial_closed : forall G (O : group_ops G) (H : tra
 Proof. exact rvole_ot_reply_tamper_partial_lem. Qed.
 
 (* ================================================================== non-vacuity *)
-(** The premises are satisfiable: the secp256k1 order lies in the admitted range, and any OT-layer
+(** The premises are satisfiable: the secp256k1 order lies in the allowed range, and any OT-layer
     output in which v_x is read off (v_0, v_1) by beta is correlated. *)
 Definition secp256k1_q : Z := 0xFFFFFFFFFFFFFFFFFFFFFFFFFFFFFFFEBAAEDCE6AF48A03BBFD25E8CD0364141.
 
